@@ -7,6 +7,7 @@ CONSTANTS
   CtsModes = {"none"}
   TfdtVs = {0, 1}
   TrexPerTrack = TRUE
+  MdatFirsts = {FALSE}
   Deliveries = {"one", "split"}
 INVARIANT Emit
 CHECK_DEADLOCK FALSE
